@@ -103,7 +103,8 @@ pub fn judge_input(s: &[u8], check_prefixes: bool) -> Vec<(String, String)> {
     if let PRes::Panic(m) = &p {
         out.push(("parse-panics".to_string(), m.clone()));
     }
-    if let CRes::Ok(n) = c {
+    if let CRes::Ok(n) = &c {
+        let n = *n;
         if n > s.len() {
             out.push(("check-accepts-more-bytes-than-given".into(), format!("check consumed {} of {}", n, s.len())));
         } else {
@@ -112,6 +113,13 @@ pub fn judge_input(s: &[u8], check_prefixes: bool) -> Vec<(String, String)> {
                 PRes::Panic(m) => out.push(("parse-after-check-panics".into(), m)),
                 _ => {}
             }
+        }
+    }
+    // the connection checks and parses the same buffer (which may hold more than the frame) and
+    // then discards exactly the checked length: the two must agree in situ as well
+    if let (CRes::Ok(n), PRes::Ok(_, m)) = (&c, &p) {
+        if n != m && *n <= s.len() {
+            out.push(("check-length-differs-from-parse-length".into(), format!("check accepts {} bytes, parse of the same buffer consumes {}", n, m)));
         }
     }
     if let PRes::Ok(f, n) = &p {
